@@ -214,6 +214,40 @@ def reduce_deltas_rules(ctx, obs, rule):
 
 
 
+def _paired_intersection(mod, outer, call, key, arg):
+    """`for key, arg in L:` where L collects the pairs (k, _intersection_idx([A.idl[k], B.idl[k]])) - the intersection travels with its replica name"""
+    if not isinstance(arg, ast.Name):
+        return False
+    loop = mod.parents.get(call)
+    while loop is not None and loop is not outer and not (isinstance(loop, ast.For) and isinstance(loop.target, ast.Tuple) and [unparse(e) for e in loop.target.elts] == [key, arg.id]):
+        loop = mod.parents.get(loop)
+    if loop is None or loop is outer or not isinstance(loop.iter, ast.Name):
+        return False
+    L = loop.iter.id
+    apps = [c for c in walk(outer) if isinstance(c, ast.Call) and isinstance(c.func, ast.Attribute) and c.func.attr == 'append' and unparse(c.func.value) == L]
+    stores = [w for w in walk(outer) if isinstance(w, ast.Name) and w.id == L and isinstance(w.ctx, ast.Store)]
+    if not apps or len(stores) != 1:
+        return False
+    for a in apps:
+        if not (len(a.args) == 1 and isinstance(a.args[0], ast.Tuple) and len(a.args[0].elts) == 2):
+            return False
+        k_, v_ = a.args[0].elts
+        if isinstance(v_, ast.Name):
+            blk_loop = mod.parents.get(a)
+            while blk_loop is not None and not isinstance(blk_loop, ast.For):
+                blk_loop = mod.parents.get(blk_loop)
+            ds = [s_ for s_ in walk(blk_loop if blk_loop is not None else outer) if isinstance(s_, ast.Assign) and len(s_.targets) == 1 and unparse(s_.targets[0]) == v_.id]
+            if len(ds) != 1:
+                return False
+            v_ = ds[0].value
+        if not (isinstance(v_, ast.Call) and call_name(v_) == '_intersection_idx' and len(v_.args) == 1 and isinstance(v_.args[0], ast.List) and len(v_.args[0].elts) == 2):
+            return False
+        refs = [_idl_ref(e) for e in v_.args[0].elts]
+        if None in refs or refs[0][1] != unparse(k_) or refs[1][1] != unparse(k_) or refs[0][0] == refs[1][0]:
+            return False
+    return True
+
+
 def d1_pairing(ctx):
     rule = 'C05-D1'
     obs = ctx.repo.mod('obs')
@@ -276,7 +310,7 @@ def d1_pairing(ctx):
             if None in (d1, d2, i1, i2):
                 ctx.unrec(rule, key, 'arguments not of the form X.deltas[k], Y.deltas[k], X.idl[k], Y.idl[k]', obs.loc(c))
             else:
-                okc = d1 == i1 and d2 == i2 and d1[1] == d2[1] and unparse(c.args[4]).endswith('[%s]' % d1[1])
+                okc = d1 == i1 and d2 == i2 and d1[1] == d2[1] and (unparse(c.args[4]).endswith('[%s]' % d1[1]) or _paired_intersection(obs, outer, c, d1[1], c.args[4]))
                 ctx.check(rule, key, okc, 'each fluctuation array is passed with its own configuration list, target = intersection for the same replica',
                           'fluctuations and configuration lists are mismatched in %s' % unparse(c), obs.loc(c))
     # intersection built from both lists of the same replica
